@@ -223,8 +223,10 @@ def _cmp_l2(rec, key, got, want, M, tol, what):
 def interp_nodes(sp, scheme):
     """reference node grid per axis, or None if the scheme is not unisolvent for this space"""
     out = []
-    for a in sp:
-        t = L.NODE_SCHEMES[scheme](a.E.R)
+    for i, a in enumerate(sp):
+        # 'mixed': a different scheme per axis, so that two axes with equal knot vectors get different node grids
+        sch = scheme if scheme != "mixed" else ("skew", "cheb")[i % 2]
+        t = L.NODE_SCHEMES[sch](a.E.R)
         if not L.schoenberg_whitney(a.E.R, t):
             return None
         out.append(t)
